@@ -58,8 +58,8 @@ theorem selArg_selectItem (cur db : Int) (off : Int) :
 theorem parseStep_select (c : PCfg) (s : PState) (a : Bytes) (n : Int) (off : Int)
     (ha : atoi? a = some n) (hn : 0 ≤ n) (hdb : c.filterDb n = false)
     (hk : (c.filterCmdKey bSelect [a]).isSome) :
-    (parseStep c s { cmd := bSelect, args := [a], off := off }).1 =
-        { currentDB := mapDb c n, bypass := false } ∧
+    (parseStep c s { cmd := bSelect, args := [a], off := off }).1.currentDB = mapDb c n ∧
+    (parseStep c s { cmd := bSelect, args := [a], off := off }).1.bypass = false ∧
     (parseStep c s { cmd := bSelect, args := [a], off := off }).2 =
         (if mapDb c n ≠ s.currentDB then POut.emit (selectItem (mapDb c n) off) else POut.skip) := by
   have hne : bSelect ≠ bPing := by decide
@@ -87,36 +87,97 @@ theorem parseStep_select_filtered (c : PCfg) (s : PState) (a : Bytes) (n : Int) 
     filtered argument list, its END offset and the parser's current database. -/
 theorem parseStep_data (c : PCfg) (s : PState) (r : Raw) (hp : r.cmd ≠ bPing) (hs : r.cmd ≠ bSelect) :
     parseStep c s r =
-      (s, if c.filterCmd r.cmd then POut.skip
-          else if r.cmd = bPublish ∧ (r.args.head?.map lower) = some bSentinelHello then POut.skip
-          else if s.bypass ∧ r.cmd ≠ bMulti ∧ r.cmd ≠ bExec then POut.skip
-          else match c.filterCmdKey r.cmd r.args with
-            | none => POut.skip
-            | some a => POut.emit { cmd := r.cmd, args := a, offset := r.off, db := s.currentDB }) := by
+      if c.filterCmd r.cmd then (s, POut.skip)
+      else if r.cmd = bPublish ∧ (r.args.head?.map lower) = some bSentinelHello then (s, POut.skip)
+      else if s.bypass ∧ closesTxn s r.cmd = false then (s, POut.skip)
+      else match c.filterCmdKey r.cmd r.args with
+        | none => (s, POut.skip)
+        | some a =>
+          (sent s r.cmd (if closesTxn s r.cmd then s.lastSent else r.off),
+           POut.emit { cmd := r.cmd, args := a,
+                       offset := (if closesTxn s r.cmd then s.lastSent else r.off), db := s.currentDB }) := by
   unfold parseStep
   simp only [hp, hs, ↓reduceIte]
-  split
-  · rfl
-  · split
-    · rfl
-    · split
-      · rfl
-      · rename_i h1 h2 h3
-        cases hf : c.filterCmdKey r.cmd r.args <;> simp
+  rfl
 
 /-- offsets of what the parser emits are offsets of source commands, in order:
     nothing is reordered, duplicated or invented by the parser -/
 theorem parseStep_emit_off (c : PCfg) (s : PState) (r : Raw) (i : Item)
-    (h : (parseStep c s r).2 = POut.emit i) : i.offset = r.off := by
+    (h : (parseStep c s r).2 = POut.emit i) :
+    (i.offset = r.off ∨ (i.offset = s.lastSent ∧ i.cmd = bExec)) ∧
+    (parseStep c s r).1.lastSent = i.offset := by
+  by_cases hp : r.cmd = bPing
+  · unfold parseStep at h ⊢
+    simp only [hp, ↓reduceIte] at h ⊢
+    cases hf : c.filterCmdKey bPing r.args with
+    | none => simp [hf] at h
+    | some a =>
+      simp only [hf] at h ⊢
+      cases hb : s.bypass <;> simp [hb] at h ⊢
+      subst h; exact ⟨Or.inl rfl, by simp [sent]⟩
+  · by_cases hs : r.cmd = bSelect
+    · have hne : bSelect ≠ bPing := by decide
+      unfold parseStep at h ⊢
+      simp only [hs, hne, ↓reduceIte] at h ⊢
+      cases ha : r.args with
+      | nil => simp [ha] at h
+      | cons a rest =>
+        cases rest with
+        | cons _ _ => simp [ha] at h
+        | nil =>
+          simp only [ha] at h ⊢
+          cases hn : atoi? a with
+          | none => simp [hn] at h
+          | some n =>
+            simp only [hn] at h ⊢
+            cases hdb : c.filterDb n
+            · simp only [hdb, Bool.false_eq_true, ↓reduceIte] at h ⊢
+              cases hf : c.filterCmdKey bSelect [a] with
+              | none => simp [hf] at h
+              | some x =>
+                simp only [hf] at h ⊢
+                by_cases h0 : 0 ≤ n
+                · simp only [h0, ↓reduceIte] at h ⊢
+                  by_cases hch : (selectDB c s.currentDB n).2 = true
+                  · simp only [hch, ↓reduceIte] at h ⊢
+                    injection h with h; subst h; exact ⟨Or.inl rfl, rfl⟩
+                  · simp [hch] at h
+                · simp only [h0, ↓reduceIte] at h ⊢
+                  injection h with h; subst h; exact ⟨Or.inl rfl, by simp [sent]⟩
+            · simp [hdb] at h
+    · rw [parseStep_data c s r hp hs] at h ⊢
+      by_cases h1 : c.filterCmd r.cmd = true
+      · simp [h1] at h
+      · by_cases h2 : r.cmd = bPublish ∧ (r.args.head?.map lower) = some bSentinelHello
+        · simp [h1, h2] at h
+        · by_cases h3 : s.bypass = true ∧ closesTxn s r.cmd = false
+          · simp [h1, h2, h3] at h
+          · simp only [h1, h2, h3, Bool.false_eq_true, ↓reduceIte] at h ⊢
+            cases hf : c.filterCmdKey r.cmd r.args with
+            | none => rw [hf] at h; simp at h
+            | some a =>
+              rw [hf] at h
+              simp only at h ⊢
+              injection h with h; subst h
+              refine ⟨?_, by simp [sent]⟩
+              by_cases hc : closesTxn s r.cmd = true
+              · right
+                have he : r.cmd = bExec := by
+                  simp only [closesTxn, Bool.and_eq_true, decide_eq_true_eq] at hc; exact hc.1.2
+                exact ⟨by simp [hc], he⟩
+              · left; simp [hc]
+
+theorem parseStep_skip_lastSent (c : PCfg) (s : PState) (r : Raw) (s' : PState)
+    (h : parseStep c s r = (s', POut.skip)) : s'.lastSent = s.lastSent := by
   by_cases hp : r.cmd = bPing
   · unfold parseStep at h
     simp only [hp, ↓reduceIte] at h
     cases hf : c.filterCmdKey bPing r.args with
-    | none => simp [hf] at h
+    | none => simp [hf] at h; rw [← h]
     | some a =>
       simp only [hf] at h
       cases hb : s.bypass <;> simp [hb] at h
-      subst h; rfl
+      rw [← h]
   · by_cases hs : r.cmd = bSelect
     · have hne : bSelect ≠ bPing := by decide
       unfold parseStep at h
@@ -135,42 +196,124 @@ theorem parseStep_emit_off (c : PCfg) (s : PState) (r : Raw) (i : Item)
             cases hdb : c.filterDb n
             · simp only [hdb, Bool.false_eq_true, ↓reduceIte] at h
               cases hf : c.filterCmdKey bSelect [a] with
-              | none => simp [hf] at h
+              | none => simp [hf] at h; rw [← h]
               | some x =>
                 simp only [hf] at h
                 by_cases h0 : 0 ≤ n
                 · simp only [h0, ↓reduceIte] at h
                   by_cases hch : (selectDB c s.currentDB n).2 = true
-                  · simp only [hch, ↓reduceIte] at h
-                    injection h with h; subst h; rfl
                   · simp [hch] at h
-                · simp only [h0, ↓reduceIte] at h
-                  injection h with h; subst h; rfl
-            · simp [hdb] at h
+                  · simp [hch] at h; rw [← h]
+                · simp [h0] at h
+            · simp [hdb] at h; rw [← h]
     · rw [parseStep_data c s r hp hs] at h
-      simp only at h
-      split at h
-      · cases h
-      · split at h
-        · cases h
-        · split at h
-          · cases h
-          · split at h
-            · cases h
-            · injection h with h; subst h; rfl
+      by_cases h1 : c.filterCmd r.cmd = true
+      · simp [h1] at h; rw [← h]
+      · by_cases h2 : r.cmd = bPublish ∧ (r.args.head?.map lower) = some bSentinelHello
+        · simp [h1, h2] at h; rw [← h]
+        · by_cases h3 : s.bypass = true ∧ closesTxn s r.cmd = false
+          · simp [h1, h2, h3] at h; rw [← h]
+          · simp only [h1, h2, h3, Bool.false_eq_true, ↓reduceIte] at h
+            cases hf : c.filterCmdKey r.cmd r.args with
+            | none => rw [hf] at h; simp at h; rw [← h]
+            | some a => rw [hf] at h; simp at h
 
-theorem parseAll_offsets_sublist (c : PCfg) (s : PState) (raws : List Raw) :
-    List.Sublist ((parseAll c s raws).map (·.offset)) (raws.map (·.off)) := by
+/-- the parser never reorders or invents positions: with source offsets increasing
+    from at least `lastSent`, the offsets it hands to the sender never decrease -/
+theorem parseAll_offsets_mono (c : PCfg) (raws : List Raw) (s : PState)
+    (hraw : (raws.map (·.off)).Pairwise (· < ·)) (hlo : ∀ r ∈ raws, s.lastSent ≤ r.off) :
+    ((parseAll c s raws).map (·.offset)).Pairwise (· ≤ ·) ∧
+    ∀ i ∈ parseAll c s raws, s.lastSent ≤ i.offset := by
   induction raws generalizing s with
   | nil => simp [parseAll]
   | cons r rest ih =>
+    have hr : s.lastSent ≤ r.off := hlo r (List.mem_cons_self ..)
+    simp only [List.map_cons, List.pairwise_cons] at hraw
+    have hrest_lo : ∀ r' ∈ rest, r.off ≤ r'.off := by
+      intro r' hr'
+      have := hraw.1 r'.off (List.mem_map.mpr ⟨r', hr', rfl⟩); omega
     simp only [parseAll]
-    split
-    · exact List.Sublist.cons _ (ih _)
-    · rename_i s' i heq
-      have : i.offset = r.off := parseStep_emit_off c s r i (by rw [heq])
-      simp only [List.map_cons, this]
-      exact List.Sublist.cons_cons _ (ih _)
-    · simp
+    cases hps : parseStep c s r with
+    | mk s' o =>
+      cases o with
+      | fail => simp
+      | skip =>
+        simp only
+        -- a skipped command does not move lastSent (select/bypass steps keep it)
+        have hl : s'.lastSent = s.lastSent := by
+          have := parseStep_skip_lastSent c s r s' (by rw [hps])
+          exact this
+        have := ih s' hraw.2 (fun r' hr' => by rw [hl]; have := hrest_lo r' hr'; omega)
+        exact ⟨this.1, fun i hi => by have := this.2 i hi; rw [hl] at this; exact this⟩
+      | emit i =>
+        simp only
+        obtain ⟨hoff, hls⟩ := parseStep_emit_off c s r i (by rw [hps])
+        rw [hps] at hls
+        simp only at hls
+        have hile : i.offset ≤ r.off := by rcases hoff with h | ⟨h, _⟩ <;> omega
+        have hige : s.lastSent ≤ i.offset := by rcases hoff with h | ⟨h, _⟩ <;> omega
+        have := ih s' hraw.2 (fun r' hr' => by rw [hls]; have := hrest_lo r' hr'; omega)
+        refine ⟨?_, ?_⟩
+        · simp only [List.map_cons, List.pairwise_cons]
+          refine ⟨?_, this.1⟩
+          intro x hx
+          obtain ⟨j, hj, rfl⟩ := List.mem_map.mp hx
+          have := this.2 j hj; rw [hls] at this; exact this
+        · intro j hj
+          rcases List.mem_cons.mp hj with rfl | hj'
+          · exact hige
+          · have := this.2 j hj'; rw [hls] at this; omega
+
+/-- what the sender's wire-order proof needs of its input: offsets never decrease,
+    and only an `EXEC` may repeat the offset before it -/
+def ItemsMono : Int → List Item → Prop
+  | _, [] => True
+  | last, it :: rest => last ≤ it.offset ∧ (it.cmd ≠ bExec → last < it.offset) ∧ ItemsMono it.offset rest
+
+/-- the items of a schedule, in order -/
+def itemsOf : List Ev → List Item
+  | [] => []
+  | .item it :: rest => it :: itemsOf rest
+  | _ :: rest => itemsOf rest
+
+/-- **The parser's output is what the sender assumes** (`Props.C02.SMono`): for
+    a source stream whose command END offsets increase strictly from above the
+    start offset, every item offset is above the previous one, except that the
+    `EXEC` closing a transaction inside a filtered database repeats it. -/
+theorem parseAll_itemsMono (c : PCfg) (raws : List Raw) (s : PState)
+    (hraw : (raws.map (·.off)).Pairwise (· < ·)) (hlo : ∀ r ∈ raws, s.lastSent < r.off) :
+    ItemsMono s.lastSent (parseAll c s raws) := by
+  induction raws generalizing s with
+  | nil => simp [parseAll, ItemsMono]
+  | cons r rest ih =>
+    have hr : s.lastSent < r.off := hlo r (List.mem_cons_self ..)
+    simp only [List.map_cons, List.pairwise_cons] at hraw
+    have hrest_lo : ∀ r' ∈ rest, r.off < r'.off := by
+      intro r' hr'
+      exact hraw.1 r'.off (List.mem_map.mpr ⟨r', hr', rfl⟩)
+    simp only [parseAll]
+    cases hps : parseStep c s r with
+    | mk s' o =>
+      cases o with
+      | fail => simp [ItemsMono]
+      | skip =>
+        simp only
+        have hl : s'.lastSent = s.lastSent := parseStep_skip_lastSent c s r s' (by rw [hps])
+        have := ih s' hraw.2 (fun r' hr' => by rw [hl]; have := hrest_lo r' hr'; omega)
+        rw [hl] at this; exact this
+      | emit i =>
+        simp only
+        obtain ⟨hoff, hls⟩ := parseStep_emit_off c s r i (by rw [hps])
+        rw [hps] at hls
+        simp only at hls
+        have hile : i.offset ≤ r.off := by rcases hoff with h | ⟨h, _⟩ <;> omega
+        have := ih s' hraw.2 (fun r' hr' => by rw [hls]; have := hrest_lo r' hr'; omega)
+        rw [hls] at this
+        refine ⟨?_, ?_, this⟩
+        · rcases hoff with h | ⟨h, _⟩ <;> omega
+        · intro hne
+          rcases hoff with h | ⟨_, h⟩
+          · omega
+          · exact absurd h hne
 
 end GunYu.Sender
